@@ -943,14 +943,14 @@ fn retained_messages_follow_the_rules() {
     let name = "rumqttd::Router#retained_latest_per_topic_cleared_by_empty";
     // a script is a sequence of retained / non-retained / clearing publishes on two topics
     #[derive(Clone, Copy, Debug)]
-    enum P { Ret(usize), Plain(usize), Clear(usize) }
-    let acts = [P::Ret(0), P::Ret(1), P::Plain(0), P::Clear(0), P::Clear(1)];
+    enum P { Ret(usize), Plain(usize), Clear(usize), PlainEmpty(usize) }
+    let acts = [P::Ret(0), P::Ret(1), P::Plain(0), P::Clear(0), P::Clear(1), P::PlainEmpty(0)];
     let topics = ["r/a", "r/b"];
     let filters = ["r/a", "r/+", "#", "r/b"];
     let mut cases = 0u64;
     let mut fail: Option<String> = None;
     'outer: for code in 0..(acts.len() * acts.len() * acts.len()) {
-        let script = [acts[code % 5], acts[(code / 5) % 5], acts[code / 25]];
+        let script = [acts[code % 6], acts[(code / 6) % 6], acts[code / 36]];
         for f in filters.iter() {
             for q in 0..2u8 {
                 cases += 1;
@@ -967,6 +967,8 @@ fn retained_messages_follow_the_rules() {
                         P::Ret(t) => { let s = format!("v{}", k); retained[*t] = Some(s.clone()); (*t, s, true) }
                         P::Plain(t) => (*t, format!("v{}", k), false),
                         P::Clear(t) => { retained[*t] = None; (*t, String::new(), true) }
+                        // an empty payload WITHOUT the retain flag is an ordinary message: the retained one stays
+                        P::PlainEmpty(t) => (*t, String::new(), false),
                     };
                     send(&mut r, &p, vec![publish(topics[t], 0, 0, &payload, ret)]);
                     live_expected.push((topics[t].to_string(), payload, 0u8, false));
@@ -1004,7 +1006,7 @@ fn retained_messages_follow_the_rules() {
             }
         }
     }
-    report(name, "C15", "all 125 scripts of 3 retained/plain/clearing publishes on 2 topics x 4 filters x QoS 0/1; re-subscribe and shared subscribe afterwards", cases, fail);
+    report(name, "C15", "all 216 scripts of 3 retained / plain / clearing / plain-with-empty-payload publishes on 2 topics x 4 filters x QoS 0/1; re-subscribe and shared subscribe afterwards", cases, fail);
 }
 
 // ---------------------------------------------------------------------------------------------
